@@ -210,8 +210,13 @@ impl Req {
 // ---------------------------------------------------------------- canonical text
 
 fn ex_bytes(sec: &[u8], e: &gimli::UnwindExpression<usize>) -> String {
+    // the bytes through the public accessor `UnwindExpression::get` …
+    let s = DebugFrame::new(sec, RunTimeEndian::Little);
+    let via_get: Option<Vec<u8>> = e.get::<Rd<'_>, _>(&s).ok().map(|x| x.0.slice().to_vec());
+    // … must be the section bytes [offset, offset + length)
     match sec.get(e.offset..e.offset.wrapping_add(e.length)) {
-        Some(b) => hex(b),
+        Some(b) if via_get.as_deref() == Some(b) => hex(b),
+        Some(b) => format!("!get-differs:{}:{:?}", hex(b), via_get.map(|v| hex(&v))).replace(' ', ""),
         None => format!("!oob{}+{}", e.offset, e.length),
     }
 }
@@ -790,14 +795,65 @@ where
     };
     loop {
         match table.next_row() {
-            Ok(Some(row)) => rows.push(snapshot(row, sec)),
-            Ok(None) => return (rows, Ok(())),
+            Ok(Some(row)) => {
+                let mut snap = snapshot(row, sec);
+                // `contains` is `start <= a < end`
+                for a in [row.start_address().wrapping_sub(1), row.start_address(), row.end_address().wrapping_sub(1), row.end_address()] {
+                    if row.contains(a) != (row.start_address() <= a && a < row.end_address()) {
+                        snap.iter_problem = Some(format!("contains({a}) is wrong for [{}, {})", row.start_address(), row.end_address()));
+                    }
+                }
+                rows.push(snap)
+            }
+            Ok(None) => {
+                // the table is finished: asking again must not produce another row
+                if !matches!(table.next_row(), Ok(None)) {
+                    if let Some(r) = rows.last_mut() {
+                        r.iter_problem = Some("next_row yields again after Ok(None)".into());
+                    }
+                }
+                return (rows, Ok(()));
+            }
             Err(e) => return (rows, Err(e)),
         }
         if rows.len() > cap {
             return (rows, Err(gimli::Error::TooManyIterations));
         }
     }
+}
+
+/// `FrameDescriptionEntry::unwind_info_for_address` must return the first row of the table that
+/// contains the address (or the error the table runs into before, or `NoUnwindInfoForAddress`)
+fn lookup_with<'a, Sec, St>(section: &Sec, bases: &BaseAddresses, fde: &FrameDescriptionEntry<Rd<'a>>, sec: &[u8], rows: &[RowOut], res: &Result<(), gimli::Error>) -> Option<String>
+where
+    Sec: UnwindSection<Rd<'a>>,
+    St: UnwindContextStorage<usize>,
+{
+    let mut probes: Vec<u64> = vec![fde.initial_address().wrapping_sub(1), fde.initial_address()];
+    for r in rows.iter().take(3) {
+        probes.push(r.end.wrapping_sub(1));
+        probes.push(r.end);
+    }
+    if let Some(r) = rows.last() {
+        probes.push(r.start);
+        probes.push(r.end);
+    }
+    for a in probes {
+        let mut ctx: Box<UnwindContext<usize, St>> = Box::new(UnwindContext::new_in());
+        let got = fde.unwind_info_for_address(section, bases, &mut ctx, a).map(|r| snapshot(r, sec).text);
+        let want: Result<String, String> = match rows.iter().find(|r| r.start <= a && a < r.end) {
+            Some(r) => Ok(r.text.clone()),
+            None => Err(match res {
+                Err(e) => rerr(e),
+                Ok(()) => "NoUnwindInfoForAddress".to_string(),
+            }),
+        };
+        let got_s = got.map_err(|e| rerr(&e));
+        if got_s != want {
+            return Some(format!("lookup unwind_info_for_address({a}) = {got_s:?}, rows say {want:?}").replace(' ', "_").replacen('_', " ", 1));
+        }
+    }
+    None
 }
 
 fn rows_storage<'a, Sec>(storage: &str, section: &Sec, bases: &BaseAddresses, fde: &FrameDescriptionEntry<Rd<'a>>, sec: &[u8], cap: usize) -> Option<(Vec<RowOut>, Result<(), gimli::Error>)>
@@ -822,7 +878,7 @@ where
 }
 
 /// the reply and the oracle verdict for one unwind request
-fn unwind_on<'a, Sec>(q: &Req, storage: &str, section: &Sec, secbytes: &'a [u8], fde_off: usize) -> Option<(String, Option<String>)>
+fn unwind_on<'a, Sec>(q: &Req, storage: &str, section: &Sec, secbytes: &'a [u8], fde_off: usize, do_lookup: bool) -> Option<(String, Option<String>)>
 where
     Sec: UnwindSection<Rd<'a>>,
 {
@@ -834,6 +890,17 @@ where
     let cap = q.cie.len() + q.fde.len() + 4;
     let (rows, res) = rows_storage(storage, section, &bases, &fde, secbytes, cap)?;
     let texts: Vec<String> = rows.iter().map(|r| r.text.clone()).collect();
+    let lookup_problem = if do_lookup {
+        match storage {
+            "heap" => lookup_with::<Sec, StoreOnHeap>(section, &bases, &fde, secbytes, &rows, &res),
+            "vec" => lookup_with::<Sec, StVec>(section, &bases, &fde, secbytes, &rows, &res),
+            "a8x8" => lookup_with::<Sec, St<8, 8>>(section, &bases, &fde, secbytes, &rows, &res),
+            "a2x2" => lookup_with::<Sec, St<2, 2>>(section, &bases, &fde, secbytes, &rows, &res),
+            _ => None,
+        }
+    } else {
+        None
+    };
     let reply = match &res {
         Ok(()) => format!("ok {}", list_s(&texts, "|")),
         Err(e) => format!("err {} {}", rerr(e), list_s(&texts, "|")),
@@ -841,7 +908,10 @@ where
     // ---- direct oracle
     let mut verdict: Option<String> = None;
     if let Some(p) = rows.iter().find_map(|r| r.iter_problem.clone()) {
-        verdict = Some(format!("registers-iter {p}"));
+        verdict = Some(format!("row-api {p}"));
+    }
+    if verdict.is_none() {
+        verdict = lookup_problem;
     }
     // contiguity (property text: contiguous, non-decreasing, ends at the FDE's end address)
     if verdict.is_none() {
@@ -895,18 +965,23 @@ where
 }
 
 fn unwind_req(q: &Req, storage: &str) -> Option<(String, Option<String>)> {
+    // the address lookups re-run the table once per probe: do them on a third of the requests
+    unwind_req_opt(q, storage, (q.cie.len() + q.fde.len()) % 3 == 0)
+}
+
+fn unwind_req_opt(q: &Req, storage: &str, do_lookup: bool) -> Option<(String, Option<String>)> {
     let (sec, fde_off) = q.build();
     if q.eh {
         let mut s = EhFrame::new(&sec, q.endian());
         s.set_address_size(q.asz);
         s.set_vendor(q.vendor());
-        unwind_on(q, storage, &s, &sec, fde_off)
+        unwind_on(q, storage, &s, &sec, fde_off, do_lookup)
     } else {
         let mut s = DebugFrame::new(&sec, q.endian());
         s.set_vendor(q.vendor());
         // the CIE is version 4 and carries its own address size; give the section a different one
         s.set_address_size(if q.asz == 8 { 4 } else { 8 });
-        unwind_on(q, storage, &s, &sec, fde_off)
+        unwind_on(q, storage, &s, &sec, fde_off, do_lookup)
     }
 }
 
@@ -1003,7 +1078,7 @@ fn seq_bytes(ix: &[usize]) -> Vec<u8> {
     ix.iter().flat_map(|i| ALPHABET[*i].iter().copied()).collect()
 }
 
-fn blk_case(storage: &str, ix: &[usize], k: usize) -> Option<(String, Option<String>)> {
+fn blk_case(storage: &str, ix: &[usize], k: usize, lookup: bool) -> Option<(String, Option<String>)> {
     let q = Req {
         eh: false,
         big: false,
@@ -1017,13 +1092,13 @@ fn blk_case(storage: &str, ix: &[usize], k: usize) -> Option<(String, Option<Str
         addrs: vec![0, 0x10, 0, 0, 0, 0, 0, 0, 0x08, 0, 0, 0, 0, 0, 0, 0],
         fde: seq_bytes(&ix[k..]),
     };
-    unwind_req(&q, storage)
+    unwind_req_opt(&q, storage, lookup)
 }
 
 fn blk_fold(storage: &str, len: usize, pre: &mut Vec<usize>, h: &mut u64, bad: &mut Option<String>, badc: &mut u64) -> Option<()> {
     if pre.len() >= len {
         for k in 0..=len {
-            let (reply, verdict) = blk_case(storage, pre, k)?;
+            let (reply, verdict) = blk_case(storage, pre, k, false)?;
             *h = digest_step(*h, str_hash(&reply));
             if let Some(v) = verdict {
                 *badc += 1;
@@ -1474,7 +1549,7 @@ pub fn handle(op: &str, a: &[&str]) -> Option<String> {
             if k > ix.len() {
                 return None;
             }
-            let (r, v) = blk_case(storage, &ix, k)?;
+            let (r, v) = blk_case(storage, &ix, k, true)?;
             Some(with_oracle(r, v))
         }
         _ => None,
